@@ -7,16 +7,38 @@
   inputs (they come from the serialiser, C21/C06).
 -/
 import VC2.Gen.Kernels
+import VC2.Gen.Defaults
 namespace VC2.Model.Autofill
 open VC2
 
-/-- transform parameters of a picture / first fragment, as far as versions are concerned -/
+/-- transform parameters of a picture / first fragment, as far as versions are concerned; every field may be
+    omitted (`none`) and then takes its documented default (VC2.Gen.default_*, generated from the default table) -/
 structure TP where
-  wavelet : Nat
-  waveletHo : Option Nat     -- some = asym_transform_index_flag set
-  depthHo : Option Nat       -- some = asym_transform_flag set
-  hasEtp : Bool              -- an extended_transform_parameters entry is present
+  wavelet : Option Nat           -- wavelet_index
+  asymIndexFlag : Option Bool    -- asym_transform_index_flag
+  waveletHo : Option Nat         -- wavelet_index_ho (looked at only when the flag is set)
+  asymFlag : Option Bool         -- asym_transform_flag
+  depthHo : Option Nat           -- dwt_depth_ho (looked at only when the flag is set)
+  hasEtp : Bool                  -- an extended_transform_parameters entry is present
   deriving Repr, DecidableEq, Inhabited
+
+/-- `get_auto(tp, "wavelet_index", TransformParameters)` -/
+def TP.w (t : TP) : Nat := t.wavelet.getD VC2.Gen.default_wavelet_index
+/-- the horizontal-only wavelet the code compares: the 2-D one unless the index flag is set -/
+def TP.who (t : TP) : Nat :=
+  if t.asymIndexFlag.getD VC2.Gen.default_asym_transform_index_flag then t.waveletHo.getD VC2.Gen.default_wavelet_index_ho else t.w
+/-- the horizontal-only depth the code compares: 0 unless the flag is set -/
+def TP.dho (t : TP) : Nat :=
+  if t.asymFlag.getD VC2.Gen.default_asym_transform_flag then t.depthHo.getD VC2.Gen.default_dwt_depth_ho else 0
+
+/-- the same parameters with every omitted field written out as its default - what the serialiser puts in the stream -/
+def TP.filled (t : TP) : TP :=
+  { wavelet := some t.w,
+    asymIndexFlag := some (t.asymIndexFlag.getD VC2.Gen.default_asym_transform_index_flag),
+    waveletHo := some (t.waveletHo.getD VC2.Gen.default_wavelet_index_ho),
+    asymFlag := some (t.asymFlag.getD VC2.Gen.default_asym_transform_flag),
+    depthHo := some (t.depthHo.getD VC2.Gen.default_dwt_depth_ho),
+    hasEtp := t.hasEtp }
 
 /-- what a sequence header says that matters for the version -/
 structure Hdr where
@@ -52,7 +74,7 @@ def M32 : Nat := 4294967296
 /-- the loop body: returns the filled unit and the new `last_picture_number` -/
 def numberStep (last : Nat) (u : AUnit) : AUnit × Nat :=
   if isPictureCode u.code || isFragmentCode u.code then
-    let increment := isPictureCode u.code || u.sliceCount.getD 0 == 0
+    let increment := isPictureCode u.code || u.sliceCount.getD VC2.Gen.default_fragment_slice_count == 0
     let n := match u.picNum with
       | some n => n
       | none => if increment then (last + 1) % M32 else last
@@ -86,11 +108,10 @@ def hdrVersion (h : Hdr) : Int :=
 
 /-- `get_transform_parameters(data_unit) is not None` -/
 def hasTP (u : AUnit) : Bool :=
-  isPictureCode u.code || (isFragmentCode u.code && u.sliceCount.getD 0 == 0)
+  isPictureCode u.code || (isFragmentCode u.code && u.sliceCount.getD VC2.Gen.default_fragment_slice_count == 0)
 
 def tpVersion (t : TP) : Int :=
-  VC2.Gen.wavelet_transform_version_implication t.wavelet ((t.waveletHo.getD t.wavelet : Nat) : Int)
-    ((t.depthHo.getD 0 : Nat) : Int)
+  VC2.Gen.wavelet_transform_version_implication t.w (t.who : Int) (t.dho : Int)
 
 def unitVersion (u : AUnit) : Int :=
   let v := VC2.Gen.parse_code_version_implication u.code
@@ -117,7 +138,7 @@ def versionStep (mv : Int) (autoUsed : Bool) (u : AUnit) : AUnit × Bool :=
       else (u, false)
     | none => (u, autoUsed)     -- (the generator always supplies a header description)
   else if hasTP u && autoUsed && decide (mv < 3) then
-    ({ u with tp := u.tp.map (fun t => { t with hasEtp := false, waveletHo := none, depthHo := none }) }, autoUsed)
+    ({ u with tp := u.tp.map (fun t => { t with hasEtp := false, asymIndexFlag := none, waveletHo := none, asymFlag := none, depthHo := none }) }, autoUsed)
   else (u, autoUsed)
 
 def versionFill (mv : Int) : Bool → List AUnit → List AUnit
